@@ -41,7 +41,10 @@ def showBody (m : Msg) : String :=
 def showOut (st : Spec.Chunk.State) (p : Ser.Packet) : Spec.Chunk.State × String :=
   let d := if p.drop then "1" else "0"
   match decodePacket st p.bytes with
-  | none => (st, s!"out:{d}:{p.bytes.length}:UNDECODABLE:{showBytes p.bytes}")
+  | none =>
+    -- the bytes may contain an AMF0 map in arbitrary order: print an order-insensitive digest
+    let sorted := (p.bytes.toArray.qsort (· < ·)).toList
+    (st, s!"out:{d}:{p.bytes.length}:UNDECODABLE:{hex64 (fnv64 sorted)}")
   | some (st', hdrs, ms) =>
     (st', s!"out:{d}:{p.bytes.length}:{showBytes hdrs}:" ++ "+".intercalate (ms.map fun m => s!"{m.typ}.{m.msid}.{m.ts}.{showBody m}"))
 
